@@ -6,6 +6,12 @@
 //                  after UpdateBoxes (new boxes, then the old ones again).  The recorded pair
 //                  multiset is compared with the expected sets the SPECIFICATION computed by
 //                  the brute-force definition (a duplicate is a failure: "each pair once").
+//                  Query boxes/points may be UNBOUNDED: the specification prints the bounds
+//                  -Infinity / +Infinity as the tokens "-Infinity" / "Infinity" (Num below maps
+//                  them to the IEEE infinities): whole space, half spaces, slabs, the empty
+//                  default Box() (min=+inf, max=-inf; must report nothing), intervals
+//                  degenerate at an infinity.  They are asked in every phase and through every
+//                  Collisions overload like the finite ones.
 //                  The tree built by the real collider_internal::CreateRadixTree functor is
 //                  compared with the model's tree (kind "drift": never a violation).
 //   kind "rects" : boolean2 edge-pair broad phase: CollectIntersectionPairs through the
@@ -94,11 +100,38 @@ static mat3x4 Matrix(const Xf& T) {
   return m;
 }
 
+// a coordinate printed by the specification: a number, or an infinity token
+struct BadToken {
+  std::string token;
+};
+// unbounded queries of the current case: asked / with a non-empty expected set (statistics only)
+static long gUnbounded = 0, gUnboundedHit = 0;
+static bool Unbounded(const B3& b) {
+  for (int d = 0; d < 3; d++)
+    if (std::isinf(b.lo[d]) || std::isinf(b.hi[d])) return true;
+  return false;
+}
+static void CountUnbounded(const std::vector<B3>& qs, const std::vector<std::vector<int>>& want) {
+  for (size_t q = 0; q < qs.size() && q < want.size(); q++)
+    if (Unbounded(qs[q])) {
+      gUnbounded++;
+      gUnboundedHit += !want[q].empty();
+    }
+}
+static double Num(const json& j) {
+  if (j.is_string()) {
+    const std::string s = j.get<std::string>();
+    if (s == "Infinity" || s == "+Infinity") return std::numeric_limits<double>::infinity();
+    if (s == "-Infinity") return -std::numeric_limits<double>::infinity();
+    throw BadToken{s};
+  }
+  return j.get<double>();
+}
 static B3 B3Of(const json& j) {
   B3 b;
   for (int d = 0; d < 3; d++) {
-    b.lo[d] = j[d].get<double>();
-    b.hi[d] = j[d + 3].get<double>();
+    b.lo[d] = Num(j[d]);
+    b.hi[d] = Num(j[d + 3]);
   }
   return b;
 }
@@ -261,7 +294,7 @@ static std::vector<B3> Boxes(const json& j) {
 }
 static std::vector<std::array<double, 3>> Points(const json& j) {
   std::vector<std::array<double, 3>> v;
-  for (auto& x : j) v.push_back({x[0].get<double>(), x[1].get<double>(), x[2].get<double>()});
+  for (auto& x : j) v.push_back({Num(x[0]), Num(x[1]), Num(x[2])});
   return v;
 }
 static void SameSets(Fails& F, const char* what, const std::vector<std::vector<int>>& mine, const std::vector<std::vector<int>>& spec) {
@@ -300,6 +333,12 @@ static int RunBvh3(const json& cs, Fails& F) {
   const auto wantBox = Sets(cs["expBox"]), wantPt = Sets(cs["expPoint"]), wantSelf = Sets(cs["expSelf"]);
   const bool self = !wantSelf.empty();
   for (auto& s : wantBox) nontrivial += !s.empty();
+  CountUnbounded(qb, wantBox);
+  for (size_t q = 0; q < qp.size() && q < wantPt.size(); q++)
+    if (std::isinf(qp[q][0]) || std::isinf(qp[q][1]) || std::isinf(qp[q][2])) {
+      gUnbounded++;
+      gUnboundedHit += !wantPt[q].empty();
+    }
   SameSets(F, "box", BruteBox(L.b, qb, false), wantBox);
   SameSets(F, "point", BrutePt(L.b, qp), wantPt);
   if (self) SameSets(F, "self", BruteBox(L.b, L.b, true), wantSelf);
@@ -429,7 +468,9 @@ static void RunPointsOn(const std::vector<std::array<double, 2>>& ps, const std:
   BuildTwoDTree(pts);
   std::vector<Pair> got;
   for (size_t q = 0; q < qs.size(); q++) {
-    Rect r(vec2(qs[q].lo[0], qs[q].lo[1]), vec2(qs[q].hi[0], qs[q].hi[1]));
+    Rect r;  // not Rect(a, b): that constructor sorts the bounds and would turn the empty Rect() into the plane
+    r.min = vec2(qs[q].lo[0], qs[q].lo[1]);
+    r.max = vec2(qs[q].hi[0], qs[q].hi[1]);
     QueryTwoDTree(pts, r, [&](const PolyVert& p) { got.push_back({(int)q, p.idx}); });
   }
   alarm(0);
@@ -439,13 +480,18 @@ static int RunPoints(const json& cs, Fails& F) {
   std::vector<std::array<double, 2>> ps;
   for (auto& p : cs["points"]) ps.push_back({p[0].get<double>(), p[1].get<double>()});
   std::vector<R2> qs;
-  for (auto& r : cs["queries"]) qs.push_back(R2{{r[0].get<double>(), r[1].get<double>()}, {r[2].get<double>(), r[3].get<double>()}});
+  for (auto& r : cs["queries"]) qs.push_back(R2{{Num(r[0]), Num(r[1])}, {Num(r[2]), Num(r[3])}});
   const auto want = Sets(cs["exp"]);
   std::vector<std::vector<int>> mine(qs.size());
   for (size_t q = 0; q < qs.size(); q++)
     for (size_t i = 0; i < ps.size(); i++)
       if (InRect(qs[q], ps[i][0], ps[i][1])) mine[q].push_back((int)i);
   if (mine != want) F.add("oracle", {{"what", "points in rect"}});
+  for (size_t q = 0; q < qs.size() && q < want.size(); q++)
+    if (std::isinf(qs[q].lo[0]) || std::isinf(qs[q].lo[1]) || std::isinf(qs[q].hi[0]) || std::isinf(qs[q].hi[1])) {
+      gUnbounded++;
+      gUnboundedHit += !want[q].empty();
+    }
   RunPointsOn(ps, qs, want, F);
   int nt = 0;
   for (auto& s : want) nt += !s.empty();
@@ -507,6 +553,40 @@ static int RunRand3(const json& cs, Fails& F) {
   for (auto& q : qb) q = RandBox(r, lat + 2, maxsize, -1);
   std::vector<std::array<double, 3>> qp(nq);
   for (auto& p : qp) p = {(double)r.below(lat + 2), (double)r.below(lat + 2), (double)r.below(50)};
+  // unbounded queries, appended (own generator: the finite part of the case stays what it was; never
+  // transformed below): whole space, the empty default Box(), per axis the whole line / a half-line /
+  // a finite interval, and such boxes with one axis empty (min=+inf,max=-inf) or degenerate at an infinity
+  {
+    Rng u(cs["seed"].get<uint64_t>() * 0x9E3779B97F4A7C15ull + 12345);
+    const double inf = std::numeric_limits<double>::infinity();
+    auto axis = [&](B3& b, int d, int kind) {
+      const double c = u.below(lat + 2) - 1;
+      b.lo[d] = kind == 0 || kind == 1 || kind == 5 ? -inf : kind == 4 || kind == 6 ? inf : c;
+      b.hi[d] = kind == 0 || kind == 2 || kind == 6 ? inf : kind == 4 || kind == 5 ? -inf : kind == 1 ? c : c + u.below(maxsize + 1);
+    };
+    B3 whole, none;
+    for (int d = 0; d < 3; d++) {
+      axis(whole, d, 0);
+      axis(none, d, 4);
+    }
+    qb.push_back(whole);
+    qb.push_back(none);
+    for (int k = 0; k < 16; k++) {
+      const int e = 1 + u.below(62);  // not (0,0,0) = whole space, not (3,3,3) = finite
+      const int kinds[3] = {e % 4, (e / 4) % 4, e / 16};
+      B3 b;
+      for (int d = 0; d < 3; d++) axis(b, d, kinds[d]);
+      if (k >= 12) axis(b, u.below(3), 4 + u.below(3));
+      qb.push_back(b);
+    }
+    for (int k = 0; k < 4; k++) {
+      const double x = u.below(lat + 2), y = u.below(lat + 2);
+      qp.push_back(k == 0 ? std::array<double, 3>{x, y, inf} : k == 1 ? std::array<double, 3>{x, y, -inf}
+                   : k == 2 ? std::array<double, 3>{-inf, y, 0} : std::array<double, 3>{x, inf, inf});
+    }
+    CountUnbounded(qb, BruteBox(leaves, qb, false));
+    gUnbounded += 4;
+  }
   const bool self = cs.value("self", true);
   auto wS = self ? BruteBox(leaves, leaves, true) : std::vector<std::vector<int>>();
   CheckPhase(F, c, "build", leaves, qb, qp, BruteBox(leaves, qb, false), BrutePt(leaves, qp), self ? &wS : nullptr);
@@ -528,7 +608,7 @@ static int RunRand3(const json& cs, Fails& F) {
     std::vector<B3> lT(n), qbT = qb;
     for (int i = 0; i < n; i++) lT[i] = Image(leaves[i], T);
     for (int i = 0; i < nq / 2; i++) qbT[i] = Image(qb[i], T);
-    auto qpT = qp;
+    auto qpT = qp;  // (the unbounded queries come after the first nq)
     for (int i = 0; i < nq / 2; i++)
       for (int d = 0; d < 3; d++) qpT[i][d] = T.s[d] * qp[i][T.c[d]] + T.t[d];
     auto wST = self ? BruteBox(lT, lT, true) : std::vector<std::vector<int>>();
@@ -579,10 +659,32 @@ static int RunRandPts(const json& cs, Fails& F) {
       q.lo[d] = r.below(lat + 2) - 1;
       q.hi[d] = q.lo[d] + r.below(lat / 2 + 1);
     }
-  std::vector<std::vector<int>> want(nq);
-  for (int q = 0; q < nq; q++)
+  {  // unbounded query rectangles: plane, empty default Rect(), half planes, quadrants, strips, dead in one axis
+    Rng u(cs["seed"].get<uint64_t>() * 0x9E3779B97F4A7C15ull + 777);
+    const double inf = std::numeric_limits<double>::infinity();
+    qs.push_back(R2{{-inf, -inf}, {inf, inf}});
+    qs.push_back(R2{{inf, inf}, {-inf, -inf}});
+    for (int k = 0; k < 10; k++) {
+      const int e = k < 8 ? 1 + u.below(14) : u.below(16);  // per axis: 0 line, 1 left, 2 right, 3 finite
+      int kinds[2] = {e % 4, e / 4};
+      if (k >= 8) kinds[u.below(2)] = 4 + u.below(3);  // 4 empty, 5 / 6 degenerate at -inf / +inf
+      R2 q;
+      for (int d = 0; d < 2; d++) {
+        const double c = u.below(lat + 2) - 1;
+        const int kd = kinds[d];
+        q.lo[d] = kd == 0 || kd == 1 || kd == 5 ? -inf : kd == 4 || kd == 6 ? inf : c;
+        q.hi[d] = kd == 0 || kd == 2 || kd == 6 ? inf : kd == 4 || kd == 5 ? -inf : kd == 1 ? c : c + u.below(lat / 2 + 1);
+      }
+      qs.push_back(q);
+    }
+  }
+  const int nqAll = (int)qs.size();
+  gUnbounded += nqAll - nq;
+  std::vector<std::vector<int>> want(nqAll);
+  for (int q = 0; q < nqAll; q++)
     for (int i = 0; i < n; i++)
       if (InRect(qs[q], ps[i][0], ps[i][1])) want[q].push_back(i);
+  for (int q = nq; q < nqAll; q++) gUnboundedHit += !want[q].empty();
   RunPointsOn(ps, qs, want, F);
   return 1;
 }
@@ -604,23 +706,28 @@ int CollideMain(int argc, char** argv) {
     Fails F;
     const std::string kind = cases[i]["kind"];
     int nt = 0;
-    if (kind == "bvh3")
-      nt = RunBvh3(cases[i], F);
-    else if (kind == "rects")
-      nt = RunRects(cases[i], F);
-    else if (kind == "points")
-      nt = RunPoints(cases[i], F);
-    else if (kind == "rand3")
-      nt = RunRand3(cases[i], F);
-    else if (kind == "rand2")
-      nt = RunRand2(cases[i], F);
-    else if (kind == "randpts")
-      nt = RunRandPts(cases[i], F);
-    else
-      F.add("oracle", {{"what", "unknown case kind " + kind}});
+    gUnbounded = gUnboundedHit = 0;
+    try {
+      if (kind == "bvh3")
+        nt = RunBvh3(cases[i], F);
+      else if (kind == "rects")
+        nt = RunRects(cases[i], F);
+      else if (kind == "points")
+        nt = RunPoints(cases[i], F);
+      else if (kind == "rand3")
+        nt = RunRand3(cases[i], F);
+      else if (kind == "rand2")
+        nt = RunRand2(cases[i], F);
+      else if (kind == "randpts")
+        nt = RunRandPts(cases[i], F);
+      else
+        F.add("oracle", {{"what", "unknown case kind " + kind}});
+    } catch (const BadToken& b) {
+      F.add("oracle", {{"what", "unknown coordinate token " + b.token}});
+    }
     if (!F.list.empty()) nfail++;
     nontrivial += nt > 0;
-    out.line({{"i", i}, {"fail", F.list}, {"nontrivial", nt}});
+    out.line({{"i", i}, {"fail", F.list}, {"nontrivial", nt}, {"unbounded", gUnbounded}, {"unbounded_hit", gUnboundedHit}});
   }
   out.line({{"done", true}, {"n", (long)cases.size() - from}, {"failed", nfail}, {"nontrivial", nontrivial}});
   return 0;
